@@ -57,7 +57,8 @@ class Jdk:
     def __init__(self, ctx):
         self.dir = os.path.join(ctx.scratch, "jref")
         os.makedirs(self.dir, exist_ok=True)
-        rc, out, err, dt = sh(["javac", "-d", self.dir, os.path.join(VERIF, "harness", "ref", "C14n.java")], timeout=120)
+        rc, out, err, dt = sh(["javac", "-d", self.dir, os.path.join(VERIF, "harness", "ref", "C14n.java"),
+                               os.path.join(VERIF, "harness", "ref", "XmlSigVerify.java")], timeout=120)
         self.ok = rc == 0
         self.err = err[-400:]
 
@@ -71,6 +72,17 @@ class Jdk:
         if rc != 0 or len(lines) != len(items):
             raise RuntimeError("reference canonicaliser failed: rc=%s lines=%d/%d %s" % (rc, len(lines), len(items), err[-300:]))
         return [None if l.startswith("ERR") else l.strip() for l in lines]
+
+
+def jdk_validate(jdk, items):
+    """items: list of (dochex, certhex) -> list of 'OK' | 'FAIL ...' | 'ERR ...' from the JDK's XML-DSig validator"""
+    if not items:
+        return []
+    rc, out, err, dt = sh(["java", "-Xss16m", "-cp", jdk.dir, "XmlSigVerify"], input="".join("%s %s\n" % it for it in items), timeout=600)
+    lines = out.splitlines()
+    if rc != 0 or len(lines) != len(items):
+        raise RuntimeError("reference validator failed: rc=%s lines=%d/%d %s" % (rc, len(lines), len(items), err[-300:]))
+    return lines
 
 
 def attr_literal_ws(doc):
@@ -253,7 +265,8 @@ def run(ctx, replay=None):
     # documents relic builds must lie in K and be well formed
     for c in sub:
         m = mres.get(c["id"])
-        if m and (m["codes"] or not m["wf"]) and not c.get("inclusive"):
+        relic_built = c["kind"].endswith("signedinfo") or c["kind"].endswith("vsix-object")   # the rest is caller-supplied content
+        if m and relic_built and (m["codes"] or not m["wf"]) and "+unusedns" not in c["kind"]:
             ctx.violation("C19:generated-doc-outside-K", "a document built by relic is outside the class K: codes %s" % m["codes"], {"cases": [c]}, False)
     if corr_fail and not inK_div:
         c = corr_fail[0]
@@ -348,7 +361,7 @@ def run(ctx, replay=None):
                 else:
                     ctx.violation("C19:sigvalue:width", "SignatureValue is %d bytes, standard width %d" % (L, want), {"sigs": [light]}, True)
         for v in s.get("variants") or []:
-            if v["kind"] == "preserve":
+            if v["kind"] in ("preserve", "preserve-lite"):
                 n_var += 1
                 pres_docs.append((s, v))
                 if not v["ok"]:
@@ -394,6 +407,44 @@ def run(ctx, replay=None):
                 if x != y:
                     ctx.violation("C19:harness:preserve-not-preserving", "a re-serialisation meant to preserve canonical meaning changed it (harness defect)",
                                   {"signed": s["signed"], "variant": v["doc"]}, False)
+        except RuntimeError as e:
+            ctx.violation("C19:reference-run", str(e)[-300:], {"output": str(e)}, False)
+
+    # ------------------------------------------------------------ third-party validation (JDK XML-DSig) of what relic signed
+    tp = {"fresh_ok": 0, "reserialised_ok": 0, "altered_rejected": 0, "skipped_attr_ws": 0}
+    if jdk.ok:
+        items, meta = [], []
+        for s in sigs:
+            if s["kind"] not in ("enveloping", "vsix") or s.get("err") or not s.get("verify_ok"):
+                continue
+            if attr_literal_ws(bytes.fromhex(s["signed"])):      # reported as C19:sign:attr-whitespace-written-literally
+                tp["skipped_attr_ws"] += 1
+                continue
+            light = dict((k, v) for k, v in s.items() if k not in ("variants", "c14n", "gen"))
+            items.append((s["signed"], s["cert"]))
+            meta.append(("fresh", light, None))
+            for v in s.get("variants") or []:
+                if v["kind"] == "preserve-lite" or v["kind"].startswith("alter:"):
+                    items.append((v["doc"], s["cert"]))
+                    meta.append((v["kind"], light, v))
+        try:
+            for (kind, light, v), res in zip(meta, jdk_validate(jdk, items)):
+                obj = {"sigs": [dict(light, variants=[v] if v else [])], "validator": res}
+                if kind == "fresh":
+                    if res == "OK":
+                        tp["fresh_ok"] += 1
+                    else:
+                        ctx.violation("C19:thirdparty:fresh-signature-rejected", "the JDK XML-DSig validator rejects a %s signature made by relic: %s" % (light["kind"], res[:200]), obj, True)
+                elif kind == "preserve-lite":
+                    if res == "OK":
+                        tp["reserialised_ok"] += 1
+                    else:
+                        ctx.violation("C19:thirdparty:reserialised-rejected", "the JDK validator rejects a re-serialisation (attribute order / quoting / empty-element form) of a relic signature: %s" % res[:200], obj, True)
+                else:
+                    if res == "OK":
+                        ctx.violation("C19:thirdparty:altered-accepted", "harness defect or validator defect: %s validates" % kind, obj, False)
+                    else:
+                        tp["altered_rejected"] += 1
         except RuntimeError as e:
             ctx.violation("C19:reference-run", str(e)[-300:], {"output": str(e)}, False)
 
@@ -453,7 +504,7 @@ def run(ctx, replay=None):
         "divergences_by_clause": clause_hits, "restyle_pairs": n_restyle,
         "model_mismatches": len(corr_fail), "spec_vs_reference_mismatches": len(spec_fail),
         "signatures": len(sigs), "generated_docs_compared": n_gen, "digest_values_recomputed_from_reference": n_digest, "signed_documents_with_literal_cr": n_cr, "preserving_variants": n_var, "altering_variants": n_alt, "preserving_variants_confirmed_by_reference": n_pres_checked,
-        "signature_value_lengths": siglen_hist,
+        "signature_value_lengths": siglen_hist, "third_party_validation": tp,
         "pack_real_signatures": n_real, "pack_short_by_curve": short, "pack_model_cases": pack_corr,
         "provisional_findings": [prov[k] for k in sorted(prov)]})
     return ctx.finish("proof", cov, ["valid UTF-8 input (etree replaces invalid sequences by U+FFFD; the model works on bytes)",
